@@ -102,7 +102,7 @@ def run(ctx: Ctx) -> Result:
         for mk in ("1", "2"):
             # histories that are redone in other processes use a model with several restricted variables: their order must
             # not depend on the hash seed
-            m = gen.rand_model(rng, {**PROF, "p_r": 1.0, "p_q": 1.0, "p_b": 1.0, "p_b_in_filter": 0.7, "max_cells": 700} if (i % 3 == 0 and mk == "1") else PROF)
+            m = gen.rand_model(rng, {**PROF, "p_r": 1.0, "p_q": 1.0, "p_b": 1.0, "p_b_in_filter": 0.7, "p_h": 1.0, "p_h_stoch": 1.0, "max_cells": 900} if (i % 3 == 0 and mk == "1") else PROF)
             models[mk] = m
             psets[mk] = param_variants(rng, m)
             inits[mk] = {"1": qinit(gen.rand_initial_states(rng, m, 3)), "2": qinit(gen.rand_initial_states(rng, m, 5))}
